@@ -230,3 +230,19 @@ EXTRA["C03"] = EXTRA.get("C03", []) + [
 EXTRA["C11"] = EXTRA.get("C11", []) + [
     M("change-total-skipped", "psbt.py", "            total_sats += output_desc[\"sats\"]\n\n            if psbt_out.named_pubs:", "            if psbt_out.named_pubs:", ["C11.20", "C11.5"], "outputs are not added to the total"),
 ]
+
+# round 7: the cells added for "a restructuring that loses a case" each decide something on their own
+EXTRA["C03"] = EXTRA.get("C03", []) + [
+    M("sec-prefix-unchecked", "pecc.py", "        if sec_bin[0] not in (2, 3):\n            raise ValueError(f\"Unknown SEC prefix {sec_bin[0]}\")\n", "", ["C03.24"], "a 33-byte string with any first byte is read as a compressed key"),
+]
+EXTRA["C05"] = EXTRA.get("C05", []) + [
+    M("bip143-single-beyond-outputs", "tx.py", "        elif hash_type & 3 == SIGHASH_SINGLE and input_index < len(self.tx_outs):", "        elif hash_type & 3 == SIGHASH_SINGLE and input_index <= len(self.tx_outs) - 1 + (hash_type >> 7):",
+      ["C05.24", "C05.3"], "SINGLE|ANYONECANPAY without a matching output indexes past the outputs"),
+]
+EXTRA["C08"] = EXTRA.get("C08", []) + [
+    M("coin-type-regtest", "hd.py", "        if self.network == \"mainnet\":\n            coin = \"0'\"", "        if self.network in (\"mainnet\", \"regtest\"):\n            coin = \"0'\"", ["C08.22"], "regtest keys derived under coin type 0'"),
+]
+EXTRA["C13"] = EXTRA.get("C13", []) + [
+    M("sequence-number-unsigned", "taproot.py", "    return [encode_minimal_num(sequence), 0xB2, 0x75]", "    return [int_to_little_endian(sequence, (sequence.bit_length() + 7) // 8), 0xB2, 0x75]", ["C13.18"],
+      "relative timelock pushed without the sign byte"),
+]
